@@ -97,6 +97,20 @@ fn create_opt_preceding_comment_doc(
   }
 }
 
+/// The name of a declaration, preceded by the comments the parser attached to the identifier.
+fn id_to_doc(
+  heap: &Heap,
+  comment_store: &CommentStore,
+  id: &samlang_ast::source::Id,
+) -> Document {
+  create_opt_preceding_comment_doc(
+    heap,
+    comment_store,
+    id.associated_comments,
+    text_pstr(heap, id.name),
+  )
+}
+
 fn comma_sep_list<E>(
   heap: &Heap,
   comment_store: &CommentStore,
@@ -965,11 +979,15 @@ fn type_parameters_to_doc(
   tparams_opt: Option<&annotation::TypeParameters>,
 ) -> Document {
   if let Some(tparams) = tparams_opt {
-    let doc = angle_bracket_surrounded_doc(comma_sep_list(
+    let doc = create_opt_preceding_comment_doc(
+      heap,
+      comment_store,
+      tparams.start_associated_comments,
+      angle_bracket_surrounded_doc(comma_sep_list(
       heap,
       comment_store,
       &tparams.parameters,
-      NO_COMMENT_REFERENCE,
+      tparams.ending_associated_comments,
       |tparam| {
         create_opt_preceding_comment_doc(
           heap,
@@ -986,7 +1004,7 @@ fn type_parameters_to_doc(
           },
         )
       },
-    ));
+    )));
     if extra_space { Document::Concat(Rc::new(doc), Rc::new(Document::Text(" "))) } else { doc }
   } else {
     Document::Nil
@@ -1034,7 +1052,7 @@ fn create_doc_for_interface_member(
     if member.is_public { Document::Nil } else { Document::Text("private ") },
     Document::Text(if member.is_method { "method " } else { "function " }),
     type_parameters_to_doc(heap, comment_store, true, member.type_parameters.as_ref()),
-    (text_pstr(heap, member.name.name)),
+    id_to_doc(heap, comment_store, &member.name),
     create_opt_preceding_comment_doc(
       heap,
       comment_store,
@@ -1109,7 +1127,7 @@ fn interface_to_doc(
     )
     .unwrap_or(Document::Nil),
     Document::Text(if interface.private { "private interface " } else { "interface " }),
-    (text_pstr(heap, interface.name.name)),
+    id_to_doc(heap, comment_store, &interface.name),
     type_parameters_to_doc(heap, comment_store, false, interface.type_parameters.as_ref()),
     extends_or_implements_node_to_doc(
       heap,
@@ -1161,7 +1179,7 @@ fn class_to_doc(
     )
     .unwrap_or(Document::Nil),
     Document::Text(if class.private { "private class " } else { "class " }),
-    text_pstr(heap, class.name.name),
+    id_to_doc(heap, comment_store, &class.name),
     type_parameters_to_doc(heap, comment_store, false, class.type_parameters.as_ref()),
     match class.type_definition.as_ref() {
       None => Document::Nil,
@@ -1182,7 +1200,7 @@ fn class_to_doc(
           |field| {
             Document::concat(vec![
               Document::Text(if field.is_public { "val " } else { "private val " }),
-              text_pstr(heap, field.name.name),
+              id_to_doc(heap, comment_store, &field.name),
               Document::Text(": "),
               annotation_to_doc(heap, comment_store, &field.annotation),
             ])
@@ -1206,7 +1224,7 @@ fn class_to_doc(
           |variant| {
             if let Some(annotations) = &variant.associated_data_types {
               Document::concat(vec![
-                (text_pstr(heap, variant.name.name)),
+                id_to_doc(heap, comment_store, &variant.name),
                 create_opt_preceding_comment_doc(
                   heap,
                   comment_store,
@@ -1221,7 +1239,7 @@ fn class_to_doc(
                 ),
               ])
             } else {
-              text_pstr(heap, variant.name.name)
+              id_to_doc(heap, comment_store, &variant.name)
             }
           },
         )),
